@@ -2161,6 +2161,8 @@ func (ls *LState) Resume(th *LState, fn *LFunction, args ...LValue) (ResumeState
 		return ResumeError, err, nil
 	}
 	top := ls.GetTop()
+	// Resume wants the leading boolean whatever created the thread (coroutine.wrap too)
+	th.wrapped = false
 	threadRun(th)
 	haserror := LVIsFalse(ls.Get(top + 1))
 	ret := make([]LValue, 0, ls.GetTop())
